@@ -220,6 +220,14 @@ class TranslateNode(Node, TranslatableTag):
 
         message_context = self.args.get(self.message_context_var)
 
+        if (
+            message_context
+            and isinstance(message_context.value, StringLiteral)
+            and not message_context.value.value
+        ):
+            # An empty message context is the same as no context at render time.
+            message_context = None
+
         if self.plural_block:
             if message_context and isinstance(message_context.value, StringLiteral):
                 funcname = "npgettext"
